@@ -676,6 +676,32 @@ func init() {
 		rv, st1 := x.eval(n.Args[0], st)
 		c := x.c
 		o := Obj{"bufio.Scanner", map[string]Val{}}
+		if src, ok := rv.(Obj); ok && src.Kind == "bytes.Buffer" {
+			// scanning an in-memory buffer: the lines are the ScanLines split of its content (specs/00base.spec, lnN/lnS/lnT/lnE);
+			// the only possible failure is a line longer than the maximum token size (see Buffer)
+			out := c.normView(src.F["out"].(Sl))
+			c.usesStr = true
+			for _, f := range []string{"lnN", "lnS", "lnT", "lnE"} {
+				c.used[f] = true
+			}
+			in := out.Arr.(Sc).T
+			lines := c.fresh("scn.lines", arrSort(SInt, SStr))
+			cnt := app("lnN", in, out.Len)
+			c.assumeDef(tForall([][2]string{{"k!l", SInt}}, tImp(tAnd(tLe("0", "k!l"), tLt("k!l", cnt)),
+				tEq(app("slen", tSel(lines, "k!l")), tSub(app("lnE", in, out.Len, "k!l"), app("lnS", in, out.Len, "k!l")))), tSel(lines, "k!l")))
+			c.assumeDef(tForall([][2]string{{"k!l", SInt}, {"j!l", SInt}}, tImp(tAnd(tLe("0", "k!l"), tLt("k!l", cnt), tLe("0", "j!l"), tLt("j!l", app("slen", tSel(lines, "k!l")))),
+				tEq(app("sat", tSel(lines, "k!l"), "j!l"), tSel(in, tAdd(app("lnS", in, out.Len, "k!l"), "j!l")))), app("sat", tSel(lines, "k!l"), "j!l")))
+			o.F["id"] = scInt(c.fresh("scnid", SInt))
+			o.F["lines"] = Sc{lines, arrSort(SInt, SStr)}
+			o.F["n"] = scInt(c.define("scn.n", SInt, cnt))
+			o.F["fault"] = scBool(c.fresh("scn.toolong", SBool))
+			o.F["err"] = scInt("3")
+			o.F["membacked"] = scBool(tTrue)
+			o.F["pos"] = scInt("0")
+			o.F["cur"] = Sc{"str!empty", SStr}
+			o.F["done"] = scBool(tFalse)
+			return o, st1
+		}
 		c.scannerFields(o, "scn", rv.(Obj).F["id"].(Sc))
 		o.F["pos"] = scInt("0")
 		o.F["cur"] = Sc{"str!empty", SStr}
@@ -702,9 +728,25 @@ func init() {
 		return scBool(ok), x.assignBack(recv, no, st1)
 	})
 	reg("(*bufio.Scanner).Buffer", "sets the maximum token size (the line/fault model of the scanner is a function of the reader; a token-too-long failure is one of the possible faults)", func(x *Exec, n *ast.CallExpr, recv ast.Expr, st *State) (Val, *State) {
-		_, st1 := x.eval(recv, st)
+		ov, st1 := x.eval(recv, st)
+		var vals []Val
 		for _, a := range n.Args {
-			_, st1 = x.eval(a, st1)
+			var v Val
+			v, st1 = x.eval(a, st1)
+			vals = append(vals, v)
+		}
+		// an in-memory scanner can only fail with ErrTooLong: impossible once the limit is at least 2^56 (no slice is longer)
+		if o, ok := ov.(Obj); ok && o.F["membacked"] != nil && len(vals) == 2 {
+			if mx, ok := vals[1].(Sc); ok {
+				if k, lit := isIntLit(mx.T); lit && k >= 1<<56 {
+					no := Obj{o.Kind, map[string]Val{}}
+					for k, v := range o.F {
+						no.F[k] = v
+					}
+					no.F["fault"] = scBool(tFalse)
+					return Tup{}, x.assignBack(recv, no, st1)
+				}
+			}
 		}
 		return Tup{}, st1
 	})
